@@ -30,23 +30,28 @@ def raster_event(rng):
         m = RasterHeightMap.from_path(path)
     else:
         m = RasterHeightMap(img)
-    scale = rng.choice([0.5, 1.0, 2.0, 10.0])
-    tol = rng.choice([0.05, 0.2, 0.5, 1.0, 3.0])
-    m.set_scale(scale)
-    m.set_tolerance(tol)
-    queries = []
-    for _ in range(25):
-        x, y = rng.randint(-2, w + 1), rng.randint(-2, h + 1)
-        queries.append([x, y, zq(m.get_depth_at(x, y))])
-    paths = []
+    qxy = [(rng.randint(-2, w + 1), rng.randint(-2, h + 1)) for _ in range(25)]
+    lines = []
     for _ in range(6):
         line = [rng.randint(0, w - 1), rng.randint(0, h - 1), rng.randint(0, w - 1), rng.randint(0, h - 1)]
         if rng.random() < 0.15:
             line[rng.randrange(4)] = rng.choice([-2, max(w, h) + 1])
-        pts = m.sample_path([float(v) for v in line])
-        paths.append({"line": line, "pts": [[int(round(p[0])), int(round(p[1])), zq(p[2])] for p in pts]})
-    return {"kind": "raster", "w": w, "h": h, "max": mx, "scale": zq(scale), "tol": zq(tol), "img": img.astype(int).tolist(),
-            "pts": [], "queries": queries, "paths": paths}
+        lines.append(line)
+
+    def measure(scale, tol):
+        m.set_scale(scale)
+        m.set_tolerance(tol)
+        queries = [[x, y, zq(m.get_depth_at(x, y))] for x, y in qxy]
+        paths = []
+        for line in lines:
+            pts = m.sample_path([float(v) for v in line])
+            paths.append({"line": line, "pts": [[int(round(p[0])), int(round(p[1])), zq(p[2])] for p in pts]})
+        return {"kind": "raster", "w": w, "h": h, "max": mx, "scale": zq(scale), "tol": zq(tol), "img": img.astype(int).tolist(),
+                "pts": [], "queries": queries, "paths": paths}
+    out = [measure(rng.choice([0.5, 1.0, 2.0, 10.0]), rng.choice([0.05, 0.2, 0.5, 1.0, 3.0]))]
+    if rng.random() < 0.5:      # the same map object re-scaled and asked the same questions again (added after seed C19d)
+        out.append(measure(rng.choice([0.25, 3.0, 7.0]), rng.choice([0.1, 0.4, 2.0])))
+    return out
 
 
 def sparse_event(rng):
@@ -66,19 +71,25 @@ def sparse_event(rng):
         m = SparseHeightMap.from_path(path)
     else:
         m = SparseHeightMap(np.array(P, dtype=float))
-    scale = rng.choice([0.5, 1.0, 2.0, 10.0])
-    tol = rng.choice([0.27, 0.61, 1.13])
-    m.set_scale(scale)
-    m.set_tolerance(tol)
-    queries = [[p[0], p[1], zq(m.get_depth_at(p[0], p[1]))] for p in P]
-    for _ in range(25):
-        x, y = rng.randint(-3, 23), rng.randint(-3, 23)
-        queries.append([x, y, zq(m.get_depth_at(x, y))])
-    paths = []
+    qxy = [(p[0], p[1]) for p in P] + [(rng.randint(-3, 23), rng.randint(-3, 23)) for _ in range(25)]
+    lines = []
     for _ in range(4):
         line = [rng.randint(0, 20), rng.randint(0, 20), rng.randint(0, 20), rng.randint(0, 20)]
         if line[0] == line[2] and line[1] == line[3]:
             line[2] = (line[2] + 3) % 21
+        lines.append(line)
+    out = [_sparse_measure(m, P, qxy, lines, rng.choice([0.5, 1.0, 2.0, 10.0]), rng.choice([0.27, 0.61, 1.13]))]
+    if rng.random() < 0.5:      # the same map object re-scaled and asked the same questions again (added after seed C19d)
+        out.append(_sparse_measure(m, P, qxy, lines, rng.choice([0.25, 3.0, 7.0]), rng.choice([0.33, 0.9])))
+    return out
+
+
+def _sparse_measure(m, P, qxy, lines, scale, tol):
+    m.set_scale(scale)
+    m.set_tolerance(tol)
+    queries = [[x, y, zq(m.get_depth_at(x, y))] for x, y in qxy]
+    paths = []
+    for line in lines:
         pts = m.sample_path([float(v) for v in line])
         d = math.hypot(line[2] - line[0], line[3] - line[1])
         nseg = max(int(d / tol), 1)
@@ -110,7 +121,7 @@ def _chunk(job):
     ev = []
     for i in range(per):
         rng = random.Random(sd * 6007 + k + i)
-        ev.append(raster_event(rng) if (k + i) % 2 == 0 else sparse_event(rng))
+        ev += raster_event(rng) if (k + i) % 2 == 0 else sparse_event(rng)
     ev.append(flat_event(random.Random(sd * 3 + k)))
     return ev
 
@@ -155,12 +166,18 @@ class P(flow.Plan):
             e = copy.deepcopy(ev)
             fn(e)
             out.append({"meta": {"driver": "control", "control": {"clause": clause, "step": 1}}, "ev": [e]})
-        r = raster_event(rng)
+        r = raster_event(rng)[0]
         while not any(len(p["pts"]) >= 3 for p in r["paths"]) or not any(len(p["pts"]) < Pmax(p) for p in r["paths"]):
-            r = raster_event(rng)
-        s = sparse_event(rng)
+            r = raster_event(rng)[0]
+        s = sparse_event(rng)[0]
         mk(r, "C19_Pixel", lambda e: e["queries"][0].__setitem__(2, e["queries"][0][2] + 7))
-        mk(r, "C19_Pixel", lambda e: e.__setitem__("img", [list(x) for x in zip(*e["img"])]) if e["w"] != e["h"] else e["queries"][0].__setitem__(2, e["queries"][0][2] + 9))
+        def transpose(e):       # rows and columns exchanged (dimensions too, so that the planted trace stays well formed)
+            if e["w"] != e["h"]:
+                e["img"] = [list(x) for x in zip(*e["img"])]
+                e["w"], e["h"] = e["h"], e["w"]
+            else:
+                e["queries"][0][2] += 9
+        mk(r, "C19_Pixel", transpose)
         mk(r, "C19_RasterPath", lambda e: [p["pts"].pop() for p in e["paths"]])
         mk(r, "C19_RasterDrop", lambda e: e.__setitem__("tol", 0) or [p.__setitem__("pts", [p["pts"][0], p["pts"][-1]]) for p in e["paths"]])
         mk(s, "C19_Sparse", lambda e: e["queries"][0].__setitem__(2, e["queries"][0][2] + 7))
